@@ -861,3 +861,14 @@ def contracts():
     c = _c13.get_param_descriptor_contract()
     c.prop = "C01"
     return _c01_base_gpd() + [c]
+
+
+# .param.update / trigger act on the instance whenever there is one, whatever its truth value (verified for C12)
+_c01_base_soc = contracts
+
+
+def contracts():
+    from contracts import c12 as _c12
+    c = _c12.self_or_cls_contract()
+    c.prop = "C01"
+    return _c01_base_soc() + [c]
